@@ -159,6 +159,13 @@ func stressors(full bool) []VerifyCase {
 	// a function body whose last byte equals the return opcode (24)
 	add("last-byte-24", `function f() { 24; } f(); return 1;`, "")
 	add("last-byte-24", `function f() { 280; } f(); return 1;`, "") // 280 = 0x0118: low byte 24
+	// function bodies that end in (or contain) another function definition
+	add("nested-function", `function outer() { x = 1; function inner() { return 1; } } outer(); return 1;`, "")
+	add("nested-function", `function outer() { function inner() { return 1; } } outer(); return inner();`, "")
+	add("nested-function", `function outer(a) { if (a) { return 1; } function inner() { y = 2; } } outer(0); inner(); return 1;`, "")
+	add("nested-function", `function a1() { function a2() { function a3() { z = 1; } } } a1(); a2(); a3(); return z;`, "")
+	add("nested-function", `function outer() { function inner() { return 1; } x = 2; } outer(); return 1;`, "")
+	add("nested-function", `if (true) { function late() { q = 1; } } late(); return q;`, "")
 	// OpInc of constant number 24: 24 distinct constants first
 	var cs []string
 	for i := 0; i < 24; i++ {
